@@ -130,6 +130,10 @@ func recoverFunc(runInfo *runInfoStruct) {
 }
 
 func isNil(v reflect.Value) bool {
+	if v.Kind() == reflect.Interface && !v.IsNil() {
+		// a nil slice, map, pointer, ... is nil also when it arrives inside an interface
+		v = v.Elem()
+	}
 	switch v.Kind() {
 	case reflect.Chan, reflect.Func, reflect.Interface, reflect.Map, reflect.Ptr, reflect.Slice:
 		// from reflect IsNil:
